@@ -442,3 +442,13 @@ EXPLORE["E2-paylag"] = dict(_E2, expect="counterexample",
 EXPLORE["E2-control"] = dict(_E2, expect="none",
                              hunt=[hf_hunt("nolag", extra=dict(Features=["core"], Dts=[1, 2, 3, 5]))],
                              drive=[dict(name="release", menu=MENU_RELEASE, runs=(60, 600), len=45, consts=dict(MaxBatch=8))])
+
+# the SDK's limit of 7 unbonding entries per (delegator, validator): with unbonding_period / epoch_period > 7 the eighth
+# undelegation inside one unbonding period is refused by the chain and takes the unbond that triggered it down (C09's exit)
+_E2M = dict(invariants=[], actions=["Act_C09"], rule="unbond attempts", mc=[], sim=[], seeded=[], hunt=[])
+_MENU_ENTRIES = {"items": {"bond": 5, "unbond_b": 9, "advance": 9, "withdraw": 1}, "amax": 50, "dts": [2], "probes": ["unbond_b"], "probe_every": 5,
+                 "vary": {"fee": [[0, 0, 0]], "thr": [[1, 0, 0]], "periods": [[1, 20]]}}
+EXPLORE["E2-maxentries"] = dict(_E2M, expect="counterexample",
+                                drive=[dict(name="entries", menu=_MENU_ENTRIES, runs=(20, 200), len=120, consts=dict(MaxBatch=14, MaxEntries=True))])
+EXPLORE["E2-maxentries-control"] = dict(_E2M, expect="none",
+                                        drive=[dict(name="entries", menu=_MENU_ENTRIES, runs=(20, 200), len=120, consts=dict(MaxBatch=14))])
